@@ -451,6 +451,11 @@ func init() {
 			}
 			sb.WriteString("def bsOf (baseSlot : Int) : Int :=\n  " + bss + "\n")
 		}
+		sh, err := c04SharedState(repo)
+		if err != nil {
+			return "", err
+		}
+		sb.WriteString(sh)
 		return sb.String(), nil
 	}})
 }
